@@ -714,7 +714,11 @@ def mpi_atan2(y, x, prec):
     if ya == yb == fzero:
         if mpf_ge(xa, fzero):
             return mpi_zero
-        return mpi_pi(prec)
+        if mpf_lt(xb, fzero):
+            return mpi_pi(prec)
+        # x contains negative numbers and zero or positive numbers:
+        # both values 0 and pi are taken
+        return fzero, mpf_pi(prec, round_ceiling)
     # Right half-plane
     if mpf_ge(xa, fzero):
         if mpf_ge(ya, fzero):
@@ -732,14 +736,15 @@ def mpi_atan2(y, x, prec):
             a = mpf_atan2(yb, xb, prec, round_floor)
         else:
             a = mpf_atan2(ya, xb, prec, round_floor)
-    # Lower half-plane
-    elif mpf_le(yb, fzero):
+    # Lower half-plane, not touching the negative real axis (on which
+    # atan2 jumps from -pi to pi; that case is covered below)
+    elif mpf_lt(yb, fzero):
         a = mpf_atan2(yb, xa, prec, round_floor)
         if mpf_le(xb, fzero):
             b = mpf_atan2(ya, xb, prec, round_ceiling)
         else:
             b = mpf_atan2(yb, xb, prec, round_ceiling)
-    # Covering the origin
+    # Covering the origin or part of the negative real axis
     else:
         b = mpf_pi(prec, round_ceiling)
         a = mpf_neg(b)
